@@ -22,6 +22,7 @@ import (
 	"os"
 	"runtime"
 	"sync"
+	"syscall"
 	"time"
 
 	"github.com/feichai0017/NoKV/percolator/latch"
@@ -106,6 +107,10 @@ func runSlots(sc *Schedule, emit func(vt.Ev)) {
 	}
 }
 
+// leaked counts goroutines abandoned in deadlocked schedules; main re-execs the driver when there
+// are many, so that goroutine dumps stay small.
+var leaked int
+
 func runThreads(sc *Schedule, emit func(vt.Ev)) {
 	m := latch.NewManager(nStripes)
 	km := resolve(m)
@@ -164,6 +169,7 @@ func runThreads(sc *Schedule, emit func(vt.Ev)) {
 				}
 			}
 			emit(vt.Ev{"e": "Deadlock", "blocked": blocked})
+			leaked += len(blocked)
 		}
 		return // deadlocked goroutines are abandoned (they hold only this schedule's manager)
 	}
@@ -214,7 +220,7 @@ func runFree(sc *Schedule, emit func(vt.Ev)) {
 	go func() { wg.Wait(); close(done) }()
 	select {
 	case <-done:
-	case <-time.After(120 * time.Second):
+	case <-time.After(15 * time.Second):
 		// free-running goroutines have no scheduler: a hang is reported, the check treats it as undecided
 		emit(vt.Ev{"e": "Hang"})
 	}
@@ -223,6 +229,7 @@ func runFree(sc *Schedule, emit func(vt.Ev)) {
 func main() {
 	in := flag.String("in", "", "schedules (ndjson)")
 	out := flag.String("out", "", "trace (ndjson)")
+	from := flag.Int("from", 0, "internal: first schedule to run (re-exec after many deadlocks)")
 	flag.Parse()
 	log.SetOutput(io.Discard)
 	runtime.GOMAXPROCS(1)
@@ -230,11 +237,24 @@ func main() {
 	if err != nil {
 		vt.Fatal("%v", err)
 	}
-	w, err := vt.NewWriter(*out)
+	var w *vt.Writer
+	if *from > 0 {
+		w, err = vt.NewAppendWriter(*out)
+	} else {
+		w, err = vt.NewWriter(*out)
+	}
 	if err != nil {
 		vt.Fatal("%v", err)
 	}
-	for i := range scheds {
+	for i := *from; i < len(scheds); i++ {
+		if leaked > 200 {
+			if err := w.Close(); err != nil {
+				vt.Fatal("%v", err)
+			}
+			self, _ := os.Executable()
+			err := syscall.Exec(self, []string{self, "-in", *in, "-out", *out, "-from", fmt.Sprint(i)}, os.Environ())
+			vt.Fatal("re-exec: %v", err)
+		}
 		sc := &scheds[i]
 		emit := func(ev vt.Ev) { ev["s"] = sc.ID; w.Emit(ev) }
 		switch sc.Mode {
